@@ -10,6 +10,7 @@ package main
 
 import (
 	"fmt"
+	"os"
 	"strconv"
 	"strings"
 	"time"
@@ -44,7 +45,7 @@ type lop struct {
 type luaConfig struct {
 	name     string
 	start    []sop
-	startLua string // optional literal spelling of the start state (must equal start)
+	startExpr string // optional table constructor spelling of the start state (must equal start)
 	menu     []string
 	depthQ   int
 	depthT   int
@@ -55,6 +56,7 @@ type luaConfig struct {
 	args  []*AKey  // chunk arguments A1..An (role chosen keys)
 	argOf map[string]int
 	ready bool
+	fns   map[int]rt.Value // precompiled pieces: -1 start, -2 dump, i operation i
 }
 
 func (c *luaConfig) buildOps() {
@@ -116,6 +118,23 @@ func (c *luaConfig) stmt(o lop, forKey bool) string {
 			K = c.exprs[o.key]
 		}
 	}
+	if forKey {
+		// short, readable spelling for violation keys
+		switch o.kind {
+		case lPCA:
+			return "pairs{t[k]=nil}"
+		case lPAA:
+			return "pairs{t[k]=3}"
+		case lPRA:
+			return "pairs{rawset(t,k,3)}"
+		case lPC:
+			return "pairs{if k==" + K + " then t[k]=nil}"
+		case lPO:
+			return "pairs{first: t[" + K + "]=nil}"
+		case lPR:
+			return "pairs{first: rawset(t," + K + ",3)}"
+		}
+	}
 	const head = `for k,v in pairs(t) do emit("p",kn(k),v) `
 	switch o.kind {
 	case lAssign:
@@ -142,38 +161,57 @@ func (c *luaConfig) stmt(o lop, forKey bool) string {
 
 func (c *luaConfig) program(h []uint16) string {
 	var sb strings.Builder
+	c.header(&sb)
+	sb.WriteString("local t\n")
+	sb.WriteString(c.startSrc())
+	for _, o := range h {
+		sb.WriteString(`emit("op") `)
+		sb.WriteString(c.stmt(c.ops[o], false))
+		sb.WriteByte('\n')
+	}
+	sb.WriteString(c.dumpSrc())
+	return sb.String()
+}
+
+func (c *luaConfig) header(sb *strings.Builder) {
 	if len(c.args) > 0 {
 		sb.WriteString("local ")
 		for i := range c.args {
 			if i > 0 {
 				sb.WriteByte(',')
 			}
-			fmt.Fprintf(&sb, "A%d", i+1)
+			fmt.Fprintf(sb, "A%d", i+1)
 		}
 		sb.WriteString(" = ...\n")
 	}
 	sb.WriteString("local function kn(k)\n")
 	for i, a := range c.args {
 		if a.R.K == reftable.KRef {
-			fmt.Fprintf(&sb, "  if rawequal(k,A%d) then return \"@A%d\" end\n", i+1, i+1)
+			fmt.Fprintf(sb, "  if rawequal(k,A%d) then return \"@A%d\" end\n", i+1, i+1)
 		}
 	}
 	sb.WriteString("  return k\nend\n")
-	if c.startLua != "" {
-		sb.WriteString(c.startLua + "\n")
+}
+
+
+const metaSrc = `{__index=function(_,k) emit("ix",kn(k)) return nil end, __newindex=function(tt,k,v) emit("ni",kn(k),v) rawset(tt,k,v) end}`
+
+func (c *luaConfig) startSrc() string {
+	var sb strings.Builder
+	if c.startExpr != "" {
+		sb.WriteString("t = " + c.startExpr + "\n")
 	} else {
-		sb.WriteString("local t = {}\n")
+		sb.WriteString("t = {}\n")
 		for _, s := range c.start {
 			fmt.Fprintf(&sb, "t[%s]=%s\n", c.expr(s.role), luaVal(s.val))
 		}
 	}
-	sb.WriteString(`setmetatable(t, {__index=function(_,k) emit("ix",kn(k)) return nil end, __newindex=function(tt,k,v) emit("ni",kn(k),v) rawset(tt,k,v) end})` + "\n")
-	sb.WriteString("capture(t)\n")
-	for _, o := range h {
-		sb.WriteString(`emit("op") `)
-		sb.WriteString(c.stmt(c.ops[o], false))
-		sb.WriteByte('\n')
-	}
+	sb.WriteString("setmetatable(t, " + metaSrc + ")\ncapture(t)\n")
+	return sb.String()
+}
+
+func (c *luaConfig) dumpSrc() string {
+	var sb strings.Builder
 	sb.WriteString(`emit("dump")` + "\n" + `emit("len", #t)` + "\n")
 	for _, e := range c.exprs {
 		fmt.Fprintf(&sb, `emit("rg", rawget(t,%s))`+"\n", e)
@@ -183,6 +221,22 @@ func (c *luaConfig) program(h []uint16) string {
 		fmt.Fprintf(&sb, `if rawget(t,%s)~=nil then local ok,a,b = pcall(next,t,%s) emit("nx",%d,ok,kn(a),b) end`+"\n", e, e, i)
 	}
 	sb.WriteString(`emit("done")` + "\n")
+	return sb.String()
+}
+
+// library is the chunk that compiles the start state, every operation and the
+// final dump ONCE, each as a Lua function over the shared upvalue t; a history
+// is then executed by calling these functions in order (one protected call
+// with a CPU limit each).  program(h) is the equivalent single chunk.
+func (c *luaConfig) library() string {
+	var sb strings.Builder
+	c.header(&sb)
+	sb.WriteString("local t\n")
+	sb.WriteString("reg(-1, function()\n" + c.startSrc() + "end)\n")
+	for i, o := range c.ops {
+		fmt.Fprintf(&sb, "reg(%d, function() %s end)\n", i, c.stmt(o, false))
+	}
+	sb.WriteString("reg(-2, function()\n" + c.dumpSrc() + "end)\n")
 	return sb.String()
 }
 
@@ -254,7 +308,7 @@ type luaState struct {
 	layout string
 	M      *reftable.Table
 	viols  []*vinfo // violations found in the final dump
-	src    string
+	h      []uint16
 	obs    string
 }
 
@@ -264,7 +318,18 @@ func (s *luaState) refDump() string {
 	return s.M.Dump(func(k reftable.Key) string { return k.String() })
 }
 func (s *luaState) describe() string {
-	return "program:\n" + s.src + "observed: " + s.obs + "\nreference contents at the end: " + s.M.Dump(uni().refName) + "\nlayout: " + s.layout
+	// confirm with the equivalent stand-alone program
+	confirm := "the stand-alone program shows no violation (harness inconsistency?)"
+	st2, _, ov, earlier := s.c.execWith(s.h, true)
+	if ov != nil {
+		confirm = "stand-alone program: " + ov.clause
+	} else if earlier {
+		confirm = "stand-alone program: violation at an earlier operation"
+	} else if vs := st2.oracle(); len(vs) > 0 {
+		confirm = "stand-alone program: " + vs[0].clause
+	}
+	return "observed: " + s.obs + "\nreference contents at the end: " + s.M.Dump(uni().refName) + "\nlayout: " + s.layout +
+		"\nequivalent stand-alone program (" + confirm + "; observed " + st2.(*luaState).obs + "):\n" + s.c.program(s.h)
 }
 
 func (c *luaConfig) label() string     { return "lua " + c.name }
@@ -297,37 +362,133 @@ func (c *luaConfig) lowerVal(i uint16) (uint16, bool) {
 }
 
 var captured rt.Value
-var captureInstalled bool
+var regTarget *luaConfig
+var hostFuncsInstalled bool
 
 const luaCPU = 200000
 
-func (c *luaConfig) exec(h []uint16) (state, bool, *vinfo, bool) {
-	c.resolve()
-	u := uni()
-	m := u.m
-	if !captureInstalled {
-		f := m.R.SetEnvGoFunc(m.R.GlobalEnv(), "capture", func(t *rt.Thread, gc *rt.GoCont) (rt.Cont, error) {
-			captured = gc.Arg(0)
-			return gc.Next(), nil
-		}, 1, false)
-		rt.SolemnlyDeclareCompliance(rt.ComplyCpuSafe|rt.ComplyMemSafe|rt.ComplyIoSafe|rt.ComplyTimeSafe, f)
-		captureInstalled = true
+var luaExecs int
+
+func installHostFuncs(m *host.Machine) {
+	if hostFuncsInstalled {
+		return
 	}
-	src := c.program(h)
-	m.Trace = nil
-	m.Ticks = 0
-	m.Canon = host.NewCanon()
-	captured = rt.NilValue
+	all := rt.ComplyCpuSafe | rt.ComplyMemSafe | rt.ComplyIoSafe | rt.ComplyTimeSafe
+	f := m.R.SetEnvGoFunc(m.R.GlobalEnv(), "capture", func(t *rt.Thread, gc *rt.GoCont) (rt.Cont, error) {
+		captured = gc.Arg(0)
+		return gc.Next(), nil
+	}, 1, false)
+	g := m.R.SetEnvGoFunc(m.R.GlobalEnv(), "reg", func(t *rt.Thread, gc *rt.GoCont) (rt.Cont, error) {
+		i, _ := gc.Arg(0).TryInt()
+		regTarget.fns[int(i)] = gc.Arg(1)
+		return gc.Next(), nil
+	}, 2, false)
+	rt.SolemnlyDeclareCompliance(all, f, g)
+	hostFuncsInstalled = true
+}
+
+func (c *luaConfig) argValues() []rt.Value {
 	args := make([]rt.Value, len(c.args))
 	for i, a := range c.args {
 		args[i] = a.V
 	}
-	obs := m.Exec("c03", src, args, &rt.RuntimeContextDef{HardLimits: rt.RuntimeResources{Cpu: luaCPU}})
-	if obs.Status == "gopanic" {
-		// the shared machine may be damaged: start a new one for later runs
-		panic("go panic in golua while running:\n" + src + "\n" + obs.Err)
+	return args
+}
+
+// compile loads the library chunk once per process.
+func (c *luaConfig) compile() {
+	if c.fns != nil {
+		return
 	}
-	st := &luaState{c: c, M: reftable.New(), src: src}
+	c.resolve()
+	m := uni().m
+	installHostFuncs(m)
+	c.fns = map[int]rt.Value{}
+	regTarget = c
+	obs := m.Exec("c03lib", c.library(), c.argValues(), nil)
+	if obs.Status != "ok" {
+		panic("library chunk failed: " + obs.String() + "\n" + c.library())
+	}
+}
+
+var cpuDef = &rt.RuntimeContextDef{HardLimits: rt.RuntimeResources{Cpu: luaCPU}}
+
+// run executes history h: start state, each operation, final dump - every
+// piece is a precompiled Lua function run under the CPU limit.
+func (c *luaConfig) run(h []uint16) host.Obs {
+	c.compile()
+	m := uni().m
+	m.Trace = nil
+	m.Ticks = 0
+	m.Canon = host.NewCanon()
+	captured = rt.NilValue
+	// one context (CPU limit) around the whole history
+	var o host.Obs
+	defer func() {
+		if p := recover(); p != nil {
+			panic(fmt.Sprintf("go panic in golua while running:\n%s\n%v", c.program(h), p))
+		}
+	}()
+	th := m.R.MainThread()
+	ctx, err := th.CallContext(*cpuDef, func() error {
+		term := rt.NewTerminationWith(nil, 0, true)
+		if err := rt.Call(th, c.fns[-1], nil, term); err != nil {
+			return err
+		}
+		for _, op := range h {
+			m.Trace = append(m.Trace, `s:"op"`)
+			if err := rt.Call(th, c.fns[int(op)], nil, rt.NewTerminationWith(nil, 0, true)); err != nil {
+				return err
+			}
+		}
+		return rt.Call(th, c.fns[-2], nil, rt.NewTerminationWith(nil, 0, true))
+	})
+	o.Trace = m.Trace
+	switch {
+	case ctx.Status() == rt.StatusKilled:
+		o.Status = "killed"
+		if err != nil {
+			o.Err = err.Error()
+		}
+	case err != nil:
+		o.Status = "err"
+		o.Err = m.Canon.Value(rt.ErrorValue(err))
+	default:
+		o.Status = "ok"
+	}
+	return o
+}
+
+// runWhole executes the equivalent single chunk program(h) (used to confirm
+// reported violations with a stand-alone program).
+func (c *luaConfig) runWhole(h []uint16) host.Obs {
+	c.resolve()
+	m := uni().m
+	installHostFuncs(m)
+	m.Trace = nil
+	m.Ticks = 0
+	m.Canon = host.NewCanon()
+	captured = rt.NilValue
+	return m.Exec("c03", c.program(h), c.argValues(), cpuDef)
+}
+
+func (c *luaConfig) exec(h []uint16) (state, bool, *vinfo, bool) {
+	return c.execWith(h, false)
+}
+
+func (c *luaConfig) execWith(h []uint16, whole bool) (state, bool, *vinfo, bool) {
+	luaExecs++
+	u := uni()
+	var obs host.Obs
+	if whole {
+		obs = c.runWhole(h)
+	} else {
+		obs = c.run(h)
+	}
+	if obs.Status == "gopanic" {
+		panic("go panic in golua while running:\n" + c.program(h) + "\n" + obs.Err)
+	}
+	st := &luaState{c: c, M: reftable.New(), h: append([]uint16{}, h...)}
 	if len(obs.Trace) > 60 {
 		st.obs = obs.Status + " " + obs.Err + " trace(first 60)=[" + strings.Join(obs.Trace[:60], " | ") + " ...]"
 	} else {
@@ -383,7 +544,7 @@ func (c *luaConfig) check(h []uint16, obs host.Obs, st *luaState) (int, *vinfo) 
 			}
 			return nil, &vinfo{"error", "unexpected error: " + obs.Err}
 		case "compile":
-			panic("generated program does not compile: " + obs.Err + "\n" + st.src)
+			panic("generated program does not compile: " + obs.Err)
 		}
 		return nil, &vinfo{"trace-short", "trace ended early"}
 	}
@@ -631,8 +792,8 @@ func luaConfigs() []*luaConfig {
 	add(&luaConfig{name: "empty/zero", menu: []string{"i0", "f0", "i1", "i-1"}, depthQ: 3, depthT: 4})
 	add(&luaConfig{name: "empty/clo", menu: []string{"C40a", "C41a", "W44a", "T02a"}, depthQ: 4, depthT: 5})
 	add(&luaConfig{name: "empty/big", menu: []string{"i2^53", "f2^53", "f2^63", "f1.5", "imin", "f-2^63"}, depthQ: 3, depthT: 4})
-	add(&luaConfig{name: "ctor3", startLua: "local t = {1,2,3}", start: []sop{{"i1", 1}, {"i2", 2}, {"i3", 3}}, menu: []string{"i1", "i3", "f3", "i4"}, depthQ: 4, depthT: 5})
-	add(&luaConfig{name: "ctor1+zero", startLua: "local t = {1}", start: []sop{{"i1", 1}}, menu: []string{"i0", "i1", "i2"}, depthQ: 3, depthT: 4})
+	add(&luaConfig{name: "ctor3", startExpr: "{1,2,3}", start: []sop{{"i1", 1}, {"i2", 2}, {"i3", 3}}, menu: []string{"i1", "i3", "f3", "i4"}, depthQ: 4, depthT: 5})
+	add(&luaConfig{name: "ctor1+zero", startExpr: "{1}", start: []sop{{"i1", 1}}, menu: []string{"i0", "i1", "i2"}, depthQ: 3, depthT: 4})
 	add(&luaConfig{name: "hash10", start: sets(1, "i10", "s:x"), menu: []string{"i10", "f10", "i1", "s:x"}, depthQ: 4, depthT: 5})
 	add(&luaConfig{name: "int9", start: sets(7, ints(1, 9)...), menu: []string{"i8", "i9", "f9", "i10", "i1"}, depthQ: 3, depthT: 4})
 	add(&luaConfig{name: "int16", start: sets(7, ints(1, 16)...), menu: []string{"i16", "f16", "i17", "i1", "i15"}, depthQ: 3, depthT: 4})
@@ -653,15 +814,15 @@ func mixTo(s []sop, v int) []sop {
 }
 
 type luaCaseRef struct {
-	cfg   *luaConfig
-	first uint16
+	cfg    *luaConfig
+	firsts []uint16
 }
 
 func luaFamilies(tier string) []*core.Family {
 	var cases []luaCaseRef
 	for _, c := range luaConfigs() {
-		for i := range c.ops {
-			cases = append(cases, luaCaseRef{c, uint16(i)})
+		for _, g := range groups(len(c.ops), luaGroups) {
+			cases = append(cases, luaCaseRef{c, g})
 		}
 	}
 	caseCap := 50 * time.Second
@@ -678,7 +839,7 @@ func luaFamilies(tier string) []*core.Family {
 		Show: func(i uint64) string {
 			cr := cases[i]
 			cr.cfg.resolve()
-			return fmt.Sprintf("lua %s; first op %s; program for that history:\n%s", cr.cfg.name, cr.cfg.opName(cr.first), cr.cfg.program([]uint16{cr.first}))
+			return fmt.Sprintf("lua %s; first operation one of: %s\nprogram for the first of them:\n%s", cr.cfg.name, firstNames(cr.cfg, cr.firsts), cr.cfg.program(cr.firsts[:1]))
 		},
 		Run: func(i uint64) core.Outcome {
 			cr := cases[i]
@@ -690,13 +851,16 @@ func luaFamilies(tier string) []*core.Family {
 			if gd := globalDeadline(); gd.Before(until) {
 				until = gd
 			}
-			res := searchCase(cr.cfg, cr.first, depth, until)
+			res := searchCase(cr.cfg, cr.firsts, depth, until)
 			if res.truncated {
 				noteTruncated("lua-search", i, res.depthDone)
 			}
 			o := core.Outcome{States: res.states, Trans: res.trans, Viols: res.viols}
 			o.NonTrivial = res.states > 1
 			o.Sig = mapsSig(res.maps)
+			if os.Getenv("C03_DEBUG") != "" {
+				fmt.Fprintf(os.Stderr, "case %d: states=%d trans=%d execs=%d viols=%d truncated=%v\n", i, res.states, res.trans, luaExecs, len(res.viols), res.truncated)
+			}
 			return o
 		},
 	}
